@@ -495,3 +495,37 @@ def run(ck):
         muts += list(_lw38(pm, rd))
     ck.ob('C38.mem', 'C38.mem/document-immutable', is_const or not muts, pm.loc(muts[0]) if muts else pm.loc(),
           'the JsonValue returned by parser.parse() is const, or nothing in parse_update_metadata writes to it or to its members')
+
+    # ---- member lookup is by exact name: JsonValue::find returns a member only past `<member key> == key` --------------------------------------
+    from sa.match import holds as _h38
+    jf = [f for f in P.fns if f.q.endswith('JsonValue::find')]
+    if len(jf) != 1:
+        raise AnalysisBroken('JsonValue::find not found')
+    jf = jf[0]
+    ck.touch(jf)
+    key_d = jf.params[0]['d']
+    hits = [i for i in jf.walk() if jf.nodes[i]['k'] == 'ReturnStmt' and jf.kids(i) and 'nullptr' not in jf.text(i) and jf.nodes[jf.strip(jf.kids(i)[0])]['k'] != 'CXXNullPtrLiteralExpr']
+
+    def exact(fact):
+        h = _h38(jf, fact)
+        if h is None:
+            return False
+        a_, op_, b_ = h
+        return op_ == '==' and (declref(jf, a_) == key_d or declref(jf, b_) == key_d) and jf.nodes[fact[1]]['k'] in ('CXXOperatorCallExpr', 'BinaryOperator')
+    ck.floor('C38.field', 'member-returning exits of JsonValue::find', len(hits), 1)
+    f38, _ = gate_check(jf, [('return member', i) for i in hits], [('member key == key', exact)])
+    ck.ob('C38.field', 'C38.field/find-exact-name', not f38, jf.loc(f38[0][2]) if f38 else jf.loc(),
+          'JsonValue::find returns a member only when its name equals the requested key (operator==, not a prefix or length test): "version_history" is not "version"',
+          f38[0][3] if f38 else None)
+
+    # ---- each reported download is built from its own JSON entry: the record pushed into output.downloads is declared inside the loop -------------
+    from sa.paths import loops as _loops38
+    pushes = [i for i in pm.walk() if (pm.nodes[i].get('callee') or '').endswith(('::push_back', '::emplace_back')) and
+              any((pm.nodes[j].get('m') or '').endswith('Metadata::downloads') for j in pm.walk(i))]
+    ck.floor('C38.field', 'appends to Metadata::downloads', len(pushes), 1)
+    for i in pushes:
+        arg_d = [pm.nodes[j]['d'] for j in pm.walk(pm.call_args(i)[0]) if pm.nodes[j]['k'] == 'DeclRefExpr' and pm.nodes[j].get('dk') == 'Var']
+        lp_in = [l for l in _loops38(pm) if pm.is_in(i, l)]
+        fresh38 = bool(arg_d) and bool(lp_in) and all(any(pm.nodes[v]['k'] == 'VarDecl' and pm.nodes[v].get('d') == d_ and pm.is_in(v, pm.nodes[lp_in[-1]]['body']) for v in pm.walk()) for d_ in arg_d)
+        ck.ob('C38.field', 'C38.field/download-record-fresh-per-entry', fresh38, pm.loc(i),
+              'the DownloadInfo appended for a platform is a local of the loop body, so every field not present in that entry has its default (nothing carries over from the previous platform)')
